@@ -74,6 +74,14 @@ func (x *g) knobs() {
 		k.PIDStart = uint64(r.Intn(1 << 20))
 	}
 	k.SegNum, k.SegDen = []int{0, 1, 1, 3}[r.Intn(4)], 4
+	// temporary Accept errors (EMFILE, ECONNABORTED ...): the accept loop backs
+	// off in virtual time and must go on serving
+	switch r.Intn(12) {
+	case 0:
+		k.AcceptErrs = 1 + r.Intn(3)
+	case 1:
+		k.AcceptErrNum = []int{2, 4, 8}[r.Intn(3)]
+	}
 }
 
 func (x *g) alphabet(allowEmpty bool) {
